@@ -16,43 +16,14 @@ DEPTH = {"quick": 6, "thorough": 8}
 SWEEP = {"quick": 2, "thorough": 3}
 
 
-def observe(events, case="lower", trailing=False, settings=None):
-    text = cmakegen.text_of(events, case=case, trailing_dangling=trailing)
-    r = pipeline.document_text(text, settings)
-    return text, r
-
-
-def check_history(events, case="lower", trailing=False):
-    """returns (messages, expected_digest, nontrivial)"""
-    text, r = observe(events, case, trailing)
-    exp = refmodel.expected(events)
-    if r["page"] is None:
-        return [f"error: pipeline failed on a well-formed module: {r['error']}"], common.digest(["err"]), bool(exp)
-    page = rstobs.Page(r["page"])
-    msgs = []
-    mods = page.module()
-    if len(mods) != 1 or page.blocks[0].name != "module":
-        msgs.append(f"module: expected exactly one module directive first, got {[b.name for b in page.blocks][:4]}")
-    if page.stray:
-        msgs.append(f"stray: text outside any entry: {page.stray[:3]}")
-    obs = [rstobs.abstract_entry(b) for b in page.entries()]
-    msgs += refmodel.compare(exp, obs)
-    if "Dangling" in r["page"]:
-        msgs.append("dangling: text of a doccomment not followed by a command reached the output")
-    for ev in events:
-        if ev["k"] == "comment":
-            t = ev.get("text", cmakegen.COMMENT_SHAPES[ev.get("shape", 0)])
-            core = t.strip("#[]= \n")
-            if core and core in r["page"]:
-                msgs.append(f"comment: annotation comment text {core!r} reached the output")
-    return msgs, common.digest([(e["kind"], e["sig"]) for e in exp]), bool(exp)
+from ..modsearch import check_module as check_history  # noqa: E402
 
 
 def expand(history, maxnest, depth, case):
     out = []
     for ev in statespace.enabled(history, maxnest):
         h2 = history + [ev]
-        msgs, dg, nt = check_history(h2, case)
+        msgs, dg, nt = check_history(h2, None, case)
         key = None
         if len(h2) < depth:
             impl = pipeline.impl_abstraction(cmakegen.render(cmakegen.items(h2, case)))
@@ -63,7 +34,7 @@ def expand(history, maxnest, depth, case):
 
 
 def sweep_one(h, case):
-    msgs, dg, nt = check_history(h, case, trailing=True)
+    msgs, dg, nt = check_history(h, None, case, trailing=True)
     return {"viol": msgs, "obs": dg, "nt": dg if nt else None, "cls": msgs[0].split(":")[0] if msgs else None}
 
 
@@ -99,7 +70,7 @@ def replay(case):
     events = case if isinstance(case, list) else case["events"]
     msgs = []
     for cs in ("lower", "upper", "mixed"):
-        m, _, _ = check_history(events, cs, trailing=False)
+        m, _, _ = check_history(events, None, cs, trailing=False)
         msgs += m
         if m:
             break
